@@ -52,6 +52,14 @@ Notation state := (state A).
 Notation stage := (stage A).
 Notation next := (next C).
 
+(** what a read of [got] with quantum [q] does to the reading stage *)
+Definition read_rel (sg : stage) (q : nat) (got : list A) (d : nat) (t : option nat) (pend : list A) : Prop :=
+  ((0 < sdrop sg)%nat /\ (q <= sdrop sg)%nat /\ d = (sdrop sg - length got)%nat /\ t = stake sg /\ pend = [])
+  \/
+  (sdrop sg = 0%nat /\ d = 0%nat /\
+   t = match stake sg with Some t0 => Some (t0 - length got)%nat | None => None end /\
+   pend = (if semit sg then got else []) /\ (forall t0, stake sg = Some t0 -> (q <= t0)%nat)).
+
 (** ---- the shape of a step ---- *)
 Inductive shape (s : state) : state -> Prop :=
 | sh_spawn sg :
@@ -74,7 +82,7 @@ Inductive shape (s : state) : state -> Prop :=
 | sh_read j sg p p' got q d t pend :
     nth_error (stages s) (S j) = Some sg -> sst sg = Running -> spend sg = [] ->
     nth_error (pipes s) j = Some p -> pread q p = ROk p' got ->
-    (pend = got \/ pend = []) ->
+    (pend = got \/ pend = []) -> read_rel sg q got d t pend ->
     shape s (put_stage s (S j) (set_io sg d t pend) (upd j p' (pipes s)) (out s))
 | sh_exit i sg c :
     nth_error (stages s) i = Some sg -> sst sg = Running ->
@@ -95,21 +103,25 @@ Proof.
       set (req := if (0 <? sdrop sg)%nat then Some (sdrop sg) else stake sg).
       assert (Hex : forall c, Some (exit_stage s i sg c) = Some s' -> shape s s').
       { intros c H; inversion H; subst. apply sh_exit; assumption. }
-      destruct req as [[|lim]|] eqn:Hreq; [apply Hex| |].
+      destruct req as [[|lim]|] eqn:Hreq; [apply Hex| |]; subst req.
       * destruct i as [|j]; [apply Hex|].
         destruct (nth_error (pipes s) j) as [p|] eqn:Hpj; [|discriminate].
         destruct (pread (Nat.min k (S lim)) p) as [p' got| |] eqn:Hr; [|apply Hex|discriminate].
         intros H; inversion H; subst; clear H.
-        destruct (0 <? sdrop sg)%nat.
-        -- eapply sh_read; eauto.
-        -- eapply sh_read; eauto. destruct (semit sg); auto.
+        destruct (0 <? sdrop sg)%nat eqn:Hd.
+        -- apply Nat.ltb_lt in Hd. inversion Hreq as [Hs]. eapply sh_read; eauto.
+           left. repeat split; auto. rewrite Hs. apply Nat.le_min_r.
+        -- apply Nat.ltb_ge in Hd. eapply sh_read; eauto; [destruct (semit sg); auto|].
+           right. repeat split; auto; try lia.
+           intros t0 Ht0. rewrite Ht0 in Hreq. inversion Hreq; subst. apply Nat.le_min_r.
       * destruct i as [|j]; [apply Hex|].
         destruct (nth_error (pipes s) j) as [p|] eqn:Hpj; [|discriminate].
         destruct (pread k p) as [p' got| |] eqn:Hr; [|apply Hex|discriminate].
         intros H; inversion H; subst; clear H.
-        destruct (0 <? sdrop sg)%nat.
-        -- eapply sh_read; eauto.
-        -- eapply sh_read; eauto. destruct (semit sg); auto.
+        destruct (0 <? sdrop sg)%nat eqn:Hd; [discriminate|].
+        apply Nat.ltb_ge in Hd. eapply sh_read; eauto; [destruct (semit sg); auto|].
+        right. repeat split; auto; try lia.
+        intros t0 Ht0. rewrite Ht0 in Hreq. discriminate.
     + destruct (S i =? length (stages s))%nat eqn:Hl.
       * apply Nat.eqb_eq in Hl. intros H; inversion H; subst; clear H.
         rewrite <- Hp. apply sh_out; auto; try (rewrite Hp; cbn [length]; lia); cbn [length]; lia.
@@ -174,7 +186,7 @@ Lemma inv_step s s' : Inv s -> shape s s' -> Inv s'.
 Proof.
   intros [Hlen Hpc Hwt Hst Hpi] Hsh.
   destruct Hsh as [sg Hb Hn | sg c Hpcn Hb Hn Hd | i sg m Hn Hr Hl Hm1 Hm2
-                  | i sg p p' rest k Hn Hr Hp Hw | j sg p p' got q d t pend Hn Hr Hsp Hp Hrd Hpend
+                  | i sg p p' rest k Hn Hr Hp Hw | j sg p p' got q d t pend Hn Hr Hsp Hp Hrd Hpend Hrel
                   | i sg c Hn Hr].
   - (* spawn *)
     assert (Hlt : (pc s < length (stages s))%nat) by (apply nth_error_Some; congruence).
